@@ -80,6 +80,18 @@ CHECKS.update({
         "Every declaration that is private by the stated convention (and not re-exported under a public name) must be absent from every stub under every name it could have, and the is_public flag of every class, function and attribute entry of the API JSON must equal the ground-truth publicity.",
         "§5 C04",
     ),
+    "C10": (
+        "E1 package engine",
+        "property-based testing: Hypothesis-drawn package trees x output/source path spellings; oracle = path<->header relation read from each file, no output outside OUT, file count vs. virtual file list, API file name",
+        "For every stub file of every generated tree the directory must spell the Python module path the file announces and the base name must be the module (without leading underscores) or the single re-exported declaration; nothing may be written outside OUT; as many files must exist as distinct virtual files were generated (two texts never share a path); the inventory must be '<source dir name>__api.json' for package, parent and dotted source directories and absolute/relative/nested OUT.",
+        "§5 C10",
+    ),
+    "C12": (
+        "E1 package engine",
+        "property-based testing: Hypothesis-drawn packages; oracle = structural invariants of the JSON (sorted, unique, id shape, reference resolution, exactly-one-owner) + completeness/flags against the ground-truth inventory",
+        "The API file of every generated package is checked for internal consistency on its own, and its multiset of (kind, id) entries, the static / class-method / property flags and the superclass lists (four import forms, source order) are compared with the inventory derived from the generated source, private declarations included.",
+        "§5 C12",
+    ),
 })
 
 NOT_YET = "check not built yet in this session (work in progress, see DESIGN.md §9)"
